@@ -11,7 +11,8 @@ var round9Registrations = map[string][]string{
 	"R-ERR-10": {"C06"}, // a float is turned into an integer only where its class was tested: the truth value of 0.5 is not that of int64(0.5) (C06-17)
 	"R-SCP-8":  {"C16"}, // a cursor declared in an IF / CASE arm (also through EXECUTE / SOURCE) ends with the arm: every block body runs on its own child scope (C16-17)
 	"R-FIX-1":  {"C17"},
-	"R-TXN-1":  {"C11"}, // EXIT ends a procedure without commit: a table created since the last COMMIT does not survive it (C11-18) // the per-cell sort-value cache is dropped at the end of every SELECT: a derived table does not hand the keys of other rows to the analytic functions of the outer query (C17-17)
+	"R-TXN-1":  {"C11"},
+	"R-PAR-6":  {"C19"}, // a plain map read outside the mutex its writers hold is "fatal error: concurrent map read and map write", which no recover catches (C19-17) // EXIT ends a procedure without commit: a table created since the last COMMIT does not survive it (C11-18) // the per-cell sort-value cache is dropped at the end of every SELECT: a derived table does not hand the keys of other rows to the analytic functions of the outer query (C17-17)
 }
 
 func init() {
